@@ -73,7 +73,8 @@ pub fn run(ctx: &Ctx) -> Report {
     let mut rep = Report::new(
         "C15",
         "Retransmission-heavy schedules: (a) CASE handshakes with each handshake message dropped 1-4 times plus random loss; \
-         (b) commissioning + administrative IM traffic under 10-35 % loss. A scenario is non-trivial if at least one byte-identical \
+         (b) commissioning + administrative IM traffic under 10-35 % loss; (c) application ping-pong and streams over mirrored \
+         CASE / PASE / unsecured sessions under the MRP adversaries of C09. A scenario is non-trivial if at least one byte-identical \
          retransmission of a secured or handshake datagram was observed; distinct = (family, fault parameters, number of datagrams, \
          number of retransmissions) tuples.",
     );
@@ -91,7 +92,7 @@ pub fn run(ctx: &Ctx) -> Report {
             r["index"].as_u64().unwrap_or(0),
         )
     });
-    let n = if replay_idx.is_some() { 1 } else { ctx.share(640, 32_000) };
+    let n = if replay_idx.is_some() { 1 } else { ctx.share(960, 48_000) };
     for k in 0..n {
         let (seed, idx) = match replay_idx {
             Some((s, i)) => (s, i),
@@ -101,7 +102,35 @@ pub fn run(ctx: &Ctx) -> Report {
         let replay = json!({"check":"C15","shard_seed": seed.to_string(), "index": idx});
         let mut snap = SnapMonitor::new();
         rep.evaluations += 1;
-        let (viol, stats, family, datagrams): (Vec<String>, (u64, u64), &str, u64) = if idx % 2 == 0 {
+        let (viol, stats, family, datagrams): (Vec<String>, (u64, u64), &str, u64) = if idx % 3 == 2 {
+            // (c) application ping-pong / streams over mirrored CASE, PASE and unsecured sessions
+            // under the scripted and random MRP adversaries of C09 (stale acknowledgements
+            // overtaken by responses, duplicates after acks, interface back-pressure, ...)
+            let p = crate::mon::c09::gen_params(&mut rng, idx);
+            let o = crate::mon::c09::run_case(&p);
+            if let Some(msg) = &o.panic {
+                rep.violation("no-panic", &format!("C15/panic/{}", crate::util::panic_class(msg)), format!("panic {} params {:?}", msg, p), replay.clone());
+                continue;
+            }
+            if o.setup_error.is_some() {
+                rep.inconclusive("setup-failed(mrp world)");
+                continue;
+            }
+            let mut seen: std::collections::HashMap<(usize, u64), u32> = std::collections::HashMap::new();
+            let mut secured = 0u64;
+            let mut retrans = 0u64;
+            for t in &o.txs {
+                if t.w.is_some() {
+                    secured += 1;
+                }
+                let c = seen.entry((t.src, t.hash)).or_insert(0);
+                if *c > 0 {
+                    retrans += 1;
+                }
+                *c += 1;
+            }
+            (o.tap_violations.clone(), (secured, retrans), "mrp", o.txs.len() as u64)
+        } else if idx % 3 == 0 {
             let p = case_params(&mut rng);
             let o = c01::run_case(&p);
             if let Some(msg) = &o.panic {
